@@ -37,11 +37,13 @@ print(json.dumps(res, indent=1))
 if res["confirmed"]:
     d = f"/verif/seeded/{name}"
     os.makedirs(d, exist_ok=True)
-    shutil.copy(f"{src}/patch.diff", f"{d}/patch.diff")
-    shutil.copy(f"{src}/demo.py", f"{d}/demo.py")
-    if os.path.exists(f"{src}/notes.md"):
-        shutil.copy(f"{src}/notes.md", f"{d}/notes.md")
-    meta = {"property": prop, "needs_to_manifest": needs, "confirmed_at_repo_head": res["repo_head"],
+    if os.path.abspath(src) != os.path.abspath(d):
+        shutil.copy(f"{src}/patch.diff", f"{d}/patch.diff")
+        shutil.copy(f"{src}/demo.py", f"{d}/demo.py")
+        if os.path.exists(f"{src}/notes.md"):
+            shutil.copy(f"{src}/notes.md", f"{d}/notes.md")
+    old = json.load(open(f"{d}/meta.json")) if os.path.exists(f"{d}/meta.json") else {}
+    meta = {**old, "property": prop, "needs_to_manifest": needs or old.get("needs_to_manifest", ""), "confirmed_at_repo_head": res["repo_head"],
             "ran": ["git worktree add (scratch, HEAD)", "demo.py on pristine -> rc 0", "git apply patch.diff", "pytest tests -> " + res["tests_with_patch"], f"demo.py patched -> rc {res['demo_patched_rc']}", "git worktree remove --force"],
-            "detected_by": None}
+            "detected_by": old.get("detected_by")}
     json.dump(meta, open(f"{d}/meta.json", "w"), indent=1)
